@@ -10,6 +10,26 @@ TRUSTED_BASE = [
 ]
 
 REG = {
+    "C04": {
+        "assumptions": [
+            "the connection is the byte string the peer sends before it closes; chunking is irrelevant (C02)",
+            "bcrypt is abstracted to agreement of its 72 bytes of key material (password . NUL, repeated): verify (hash p) q <-> key72 p = key72 q; for NUL-free passwords of at most 72 bytes this is p = q (theorem C04_only_the_current_password); the correspondence includes NUL variants that collide under the real bcrypt",
+            "the first transaction must fit the connection scanner's 64 KiB token limit (bufio.MaxScanTokenSize); a longer one is never handed over and the connection stays silent",
+            "a login that succeeds and is removed from the account table between Authenticate and Get (race) is not modelled",
+            "banned addresses: the verdict is an input here (Admit in the correspondence); the ban list itself is C17's",
+        ],
+        "trusted_base": ["std++ gmap", "modelled, not verified: bcrypt (golang.org/x/crypto), net.Pipe as the connection, bufio.Scanner buffer management (C02's model)"],
+    },
+    "C17": {
+        "assumptions": [
+            "instants are nanoseconds; time.Now() is an input of the model (the harness records it around each request; bans are placed with margins of seconds so the comparison is never at the boundary - the boundary itself is covered by the theorems only)",
+            "an address is the text before the first ':' of the peer address (IPv4, as the property quantifies)",
+            "a later ban request for the same address replaces the earlier one (BanFile.Add overwrites the entry): 'refused iff the LATEST request for the address is permanent, or temporary and unexpired'; C17_ban_term_respected and C17_permanent_ban_stands give the conditions under which an earlier ban's term is still honoured",
+            "restart = a fresh BanFile loaded from the same path (live connections are kept in the harness); yaml.v3 round-trips the map (observed)",
+            "the disconnect happens one second after the request (goroutine with time.Sleep): the harness waits for it; the model treats request and disconnect as one step",
+        ],
+        "trusted_base": ["std++ gmap", "modelled, not verified: yaml.v3 (ban file), time.Now/time.Sleep, os.WriteFile"],
+    },
     "C05": {
         "assumptions": [
             "the governing privilege per request class is fixed by the reference table coq/Auth/GuardSpec.v (from the protocol document's Access lines and the property text; spec/privileges.md)",
